@@ -9,7 +9,8 @@ getattr/getitem and wrap_str_format covers format and format_map of str and Mark
 attribute helpers of filters (make_attrgetter, make_multi_attrgetter, do_attr) hand out
 values only through environment.getitem/getattr; a who-may-getattr inventory over the
 modules reachable from templates; the compiler emits attribute access only as
-environment.getattr/getitem (engine E1).  Not decided: what data objects themselves expose.
+environment.getattr/getitem (engine E1).  Also: is_safe_attribute compared as a truth table; a reviewed inventory of __getitem__ on objects handed to templates.  
+Not decided: what data objects themselves expose.
 """
 
 from __future__ import annotations
